@@ -600,6 +600,30 @@ def r_match_writes(ctx):
                                   'matchIndex is raised on a path where "%s" is not established: %s' % (nm, res.path_str(n.id, cex)), instance=inst + ' [' + nm + ']')
             if allok:
                 ctx.ok(inst, f.loc(st), 'success ∧ leader ∧ next_node_idx reply ∧ old < new ∧ new <= next_node_idx-1 entailed')
+    # on becoming leader every per-node index is re-initialised by assignment (no value survives from an earlier leadership)
+    from .election import become_leader_func
+    bl = become_leader_func(ctx)
+    if bl:
+        b = bl[0]
+        bcfg = U.explorer(ctx, b).cfg
+        for attr, what in ((R.matchIndex, 'matchIndex := 0'), (R.nextIndex, 'nextIndex := last index + 1')):
+            inst = 'new leader resets %s for every voter and read-only node' % what.split()[0]
+            ctx.tick()
+            ws = [a_ for a_ in P.accesses(b) if a_.attr == attr and a_.kind == 'elem_write' and isinstance(a_.node, ast.Assign)]
+            ok_loop = False
+            for a_ in ws:
+                n_ = U.node_containing(bcfg, a_.node)
+                loops = [p_ for p_ in n_.parents if isinstance(p_, ast.For)]
+                over_all = any(set(P.self_attr(x, b.self_name) for x in ast.walk(lp.iter)) >= {R.voters, R.observers} for lp in loops)
+                val_ok = (isinstance(a_.node.value, ast.Constant) and a_.node.value.value == 0) if attr == R.matchIndex else True
+                if over_all and val_ok:
+                    ok_loop = True
+            if ok_loop:
+                ctx.ok(inst, b.loc(ws[0].node), what + ' assigned in a loop over voters | read-only nodes')
+            else:
+                ctx.violation('%s:%s-not-reset-on-election' % (b.qualname, attr), b.loc(),
+                              'on becoming leader self.%s is not re-assigned for every node (%s): a value from an earlier leadership survives and is counted towards the commit quorum '
+                              'for entries the follower never received' % (attr, what), instance=inst)
     ctx.expect_min(3)
 
 
